@@ -2,8 +2,9 @@
 (* Pure merge semantics of sorted timestamp arrays, TSM blocks and TSM files (C37, C06, C04).            *)
 (*                                                                                                        *)
 (* There is no system behaviour: the state space IS the input space.  From the root state the action      *)
-(* GenInput enumerates every input of a bounded shape (or the inputs listed in the constant Picks, drawn   *)
-(* by the check from VERIF_SEED); the action Expect attaches the result the contract layer demands.        *)
+(* GenInput enumerates every input of a bounded shape (or the NPicks explicit inputs PickAt(1..NPicks),    *)
+(* drawn by the check from VERIF_SEED and validated by LoadPick); the action Expect attaches the result    *)
+(* the contract layer demands.                                                                             *)
 (* Every state with c.op = "case" is one test case:  c = the input, exp = the expected observation.       *)
 (* (Two steps instead of one Init predicate only so that TLC's workers share the evaluation of Expect.)    *)
 (*                                                                                                        *)
@@ -30,7 +31,8 @@ CONSTANTS Family,     \* "arrays" | "read" | "compact" | "snapshot"
           KeyMode,    \* compact: "full" (every key/file slot enumerates all layouts) | "small" (reduced layouts per slot)
           PPBs,       \* compact/snapshot: sequence of points-per-block settings
           MaxLen,     \* arrays: max length of a Deduplicate input; snapshot: max number of writes
-          Picks       \* sequence of explicit inputs (the `files` / `writes` component); <<>> = enumerate
+          NPicks,     \* number of explicit inputs; 0 = enumerate the input space
+          PickAt(_)   \* PickAt(n), n \in 1..NPicks: the `files` / `writes` component of the n-th explicit input
 
 VARIABLES c, exp
 vars == <<c, exp>>
@@ -46,7 +48,9 @@ Range(s) == {s[i] : i \in 1..Len(s)}
 EmptyFn == [t \in {} |-> 0]
 Restrict(f, S) == [t \in (DOMAIN f) \cap S |-> f[t]]
 \* a contract-level array (function ts -> value) as the sorted sequence of <<ts, value>> pairs, and back
-Arr(f) == LET ts == AscSeq(DOMAIN f) IN [i \in 1..Len(ts) |-> <<ts[i], f[ts[i]]>>]
+RECURSIVE ArrOf(_, _)
+ArrOf(f, S) == IF S = {} THEN <<>> ELSE LET m == Min(S) IN <<<<m, f[m]>>>> \o ArrOf(f, S \ {m})
+Arr(f) == ArrOf(f, DOMAIN f)
 Fn(s) == [t \in {s[i][1] : i \in 1..Len(s)} |-> s[CHOOSE i \in 1..Len(s) : s[i][1] = t][2]]
 IsSortedDedup(s) == \A i \in 1..(Len(s) - 1) : s[i][1] < s[i + 1][1]
 
@@ -117,10 +121,11 @@ BlockTs(kf) == UNION {Range(kf.blocks[j]) : j \in 1..Len(kf.blocks)}
 Tombed(kf, t) == \E j \in 1..Len(kf.tombs) : InRange(t, kf.tombs[j][1], kf.tombs[j][2])
 Live(files, i, k) == [t \in {t \in BlockTs(files[i][k]) : ~Tombed(files[i][k], t)} |-> V(k, i, t)]
 \* later file overrides earlier one on equal timestamps, tombstoned ranges removed; stated directly ...
-LWW(files, k) ==
-  LET lives == [i \in 1..Len(files) |-> Live(files, i, k)]
-  IN [t \in UNION {DOMAIN lives[i] : i \in 1..Len(files)} |->
-        lives[Max({i \in 1..Len(files) : t \in DOMAIN lives[i]})][t]]
+LWWOf(lives) ==    \* lives[i] = live content of file i; the newest file holding t provides the value
+  [t \in UNION {DOMAIN lives[i] : i \in 1..Len(lives)} |->
+        lives[Max({i \in 1..Len(lives) : t \in DOMAIN lives[i]})][t]]
+LWW(files, k) ==   \* (set constructor instead of LET: TLC then evaluates the per-file contents once)
+  CHOOSE r \in {LWWOf(lives) : lives \in {[i \in 1..Len(files) |-> Live(files, i, k)]}} : TRUE
 \* ... and as the fold of the array Merge over the files, oldest first (ties C06/C04 to C37)
 RECURSIVE LWWFold(_, _, _)
 LWWFold(files, k, n) == IF n = 0 THEN EmptyFn ELSE MergeF(LWWFold(files, k, n - 1), Live(files, n, k))
@@ -141,8 +146,7 @@ BlocksOfKey(out, k) == Collect(out, k, 1, 1)
 WellFormed(out, limit) ==
   /\ \A fi \in 1..Len(out) : \A e \in 1..(Len(out[fi]) - 1) : out[fi][e].key < out[fi][e + 1].key     \* keys sorted, unique
   /\ \A fi \in 1..Len(out) : \A e \in 1..Len(out[fi]) : out[fi][e].blocks # <<>>
-  /\ \A k \in 1..NKeys :
-       LET bs == BlocksOfKey(out, k) IN
+  /\ \A k \in 1..NKeys : \A bs \in {BlocksOfKey(out, k)} :      \* (bound by a quantifier: TLC evaluates it once)
        /\ \A j \in 1..Len(bs) : bs[j] # <<>> /\ IsSortedDedup(bs[j]) /\ Len(bs[j]) <= limit
        /\ \A j \in 1..(Len(bs) - 1) : bs[j][Len(bs[j])][1] < bs[j + 1][1][1]                           \* ordered, disjoint
 RECURSIVE Cat(_)
@@ -151,16 +155,18 @@ ContentOf(out, k) == Cat(BlocksOfKey(out, k))
 \* reference compaction (implementation layer): LWW content cut into blocks of ppb points, one output file
 RECURSIVE Chunk(_, _)
 Chunk(s, n) == IF s = <<>> THEN <<>> ELSE IF Len(s) <= n THEN <<s>> ELSE <<SubSeq(s, 1, n)>> \o Chunk(SubSeq(s, n + 1, Len(s)), n)
+RECURSIVE RefEntries(_, _, _)
+RefEntries(content, ppb, k) ==   \* one index entry per key that has content, keys ascending
+  IF k > Len(content) THEN <<>>
+  ELSE (IF content[k] = <<>> THEN <<>> ELSE <<[key |-> k, blocks |-> Chunk(content[k], ppb)]>>) \o RefEntries(content, ppb, k + 1)
 RefCompact(content, ppb) ==   \* content = sequence over keys of the expected <<t, v>> sequences
-  LET ks == AscSeq({k \in 1..NKeys : content[k] # <<>>})
-  IN IF ks = <<>> THEN <<>> ELSE << [j \in 1..Len(ks) |-> [key |-> ks[j], blocks |-> Chunk(content[ks[j]], ppb)]] >>
+  IF \A k \in 1..Len(content) : content[k] = <<>> THEN <<>> ELSE <<RefEntries(content, ppb, 1)>>
 \* largest input block (points): blocks that already hold >= ppb points are copied as they are by the compactor
 \* (compact.gen.go "if this block is already full, just add it as is"), so the bound a compaction can honour is
 \* max(ppb, largest input block); it equals ppb whenever all input blocks respect ppb.
 BlockLens(files) ==
   UNION {UNION {{Len(files[i][k].blocks[j]) : j \in 1..Len(files[i][k].blocks)} : k \in 1..Len(files[i])} : i \in 1..Len(files)}
 MaxIn(files) == MaxOr0(BlockLens(files))
-Limit(files, ppb) == IF MaxIn(files) > ppb THEN MaxIn(files) ELSE ppb
 
 \* cache snapshot input: writes = sequence of <<key, ts>>; the value id of write j is j; later write wins
 KeyWrites(ws, k) ==
@@ -191,7 +197,7 @@ SmallSlots ==
 NoTombSlots == [blocks : BlockLayouts, tombs : {<<>>}] \cup (IF NKeys > 1 THEN {Absent} ELSE {})
 OneTombSlots == [blocks : BlockLayouts, tombs : {<<>>} \cup {<<r>> : r \in TombRanges}] \cup (IF NKeys > 1 THEN {Absent} ELSE {})
 HasBlocks(file) == \E k \in 1..Len(file) : file[k].blocks # <<>>
-\* explicit inputs (Picks) are validated; enumerated ones are valid by construction
+\* explicit inputs (PickAt) are validated; enumerated ones are valid by construction
 ValidSlot(kf) ==
   /\ Len(kf.blocks) <= MaxBlocks
   /\ \A j \in 1..Len(kf.blocks) : /\ kf.blocks[j] # <<>>
@@ -208,16 +214,16 @@ ValidWrites(ws) == \A j \in 1..Len(ws) : ws[j][1] \in 1..NKeys /\ ws[j][2] \in T
 \* ------------------------------------------------------------------ GenInput: root -> one "in" state per input
 \* (iv stands for c'; operators are applied to the primed variable in Next)
 FilesInput(iv, kind) ==
-  IF Picks # <<>>
-  THEN \E n \in 1..Len(Picks) : ValidFiles(Picks[n]) /\ iv = [op |-> "in", kind |-> kind, files |-> Picks[n]]
+  IF NPicks > 0
+  THEN \E n \in 1..NPicks : iv = [op |-> "pick", kind |-> kind, n |-> n]
   ELSE IF KeyMode = "small"
-  THEN \E fs \in [1..NFiles -> [1..NKeys -> SmallSlots]] :
-         (\A i \in 1..NFiles : HasBlocks(fs[i])) /\ iv = [op |-> "in", kind |-> kind, files |-> fs]
+  THEN \E fs \in {x \in [1..NFiles -> [1..NKeys -> SmallSlots]] : \A i \in 1..NFiles : HasBlocks(x[i])} :
+         iv = [op |-> "in", kind |-> kind, files |-> fs]
   ELSE IF TombMode = "each"
-  THEN \E fs \in [1..NFiles -> [1..NKeys -> OneTombSlots]] :
-         (\A i \in 1..NFiles : HasBlocks(fs[i])) /\ iv = [op |-> "in", kind |-> kind, files |-> fs]
-  ELSE \E fs \in [1..NFiles -> [1..NKeys -> NoTombSlots]] :
-         /\ \A i \in 1..NFiles : HasBlocks(fs[i])
+  THEN \E fs \in {x \in [1..NFiles -> [1..NKeys -> OneTombSlots]] : \A i \in 1..NFiles : HasBlocks(x[i])} :
+         iv = [op |-> "in", kind |-> kind, files |-> fs]
+  ELSE \E fs \in {x \in [1..NFiles -> [1..NKeys -> NoTombSlots]] : \A i \in 1..NFiles : HasBlocks(x[i])} :
+         /\ TRUE
          /\ \/ iv = [op |-> "in", kind |-> kind, files |-> fs]
             \/ /\ TombMode = "one"     \* exactly one slot (that has blocks) carries one tombstone range
                /\ \E i \in 1..NFiles, k \in 1..NKeys, r \in TombRanges :
@@ -234,8 +240,8 @@ GenInput(iv) ==
     [] Family = "read" -> FilesInput(iv, "read")
     [] Family = "compact" -> FilesInput(iv, "compact")
     [] Family = "snapshot" ->
-         IF Picks # <<>>
-         THEN \E n \in 1..Len(Picks) : ValidWrites(Picks[n]) /\ iv = [op |-> "in", kind |-> "snapshot", writes |-> Picks[n]]
+         IF NPicks > 0
+         THEN \E n \in 1..NPicks : iv = [op |-> "pick", kind |-> "snapshot", n |-> n]
          ELSE \E n \in 0..MaxLen : \E ws \in [1..n -> (1..NKeys) \X Ts] : iv = [op |-> "in", kind |-> "snapshot", writes |-> ws]
 
 \* ------------------------------------------------------------------ Expect: the contract layer's answer for one input
@@ -248,20 +254,27 @@ Expected(in) ==
           fr |-> FindRangeF(fa, in.lo, in.hi), any |-> ContainsF(fa, in.lo, in.hi)]
     [] in.kind = "dedup" -> [out |-> Arr(DedupF(in.s))]
     [] in.kind = "read" ->
-         LET all == Arr(LWW(in.files, 1)) IN
-         [asc  |-> [s \in 1..NSeeks |-> ReadExpOf(all, s - 2, TRUE)],
-          desc |-> [s \in 1..NSeeks |-> ReadExpOf(all, s - 2, FALSE)]]
+         \* (`all` is bound by a set constructor rather than LET so that TLC computes the merge once, not per row)
+         CHOOSE r \in {[asc  |-> [s \in 1..NSeeks |-> ReadExpOf(all, s - 2, TRUE)],
+                         desc |-> [s \in 1..NSeeks |-> ReadExpOf(all, s - 2, FALSE)]] : all \in {Arr(LWW(in.files, 1))}} : TRUE
     [] in.kind = "compact" ->
          [content |-> [k \in 1..NKeys |-> Arr(LWW(in.files, k))],
           ppbs |-> PPBs,
-          limit |-> [j \in 1..Len(PPBs) |-> Limit(in.files, PPBs[j])]]
+          limit |-> CHOOSE l \in {[j \in 1..Len(PPBs) |-> IF mi > PPBs[j] THEN mi ELSE PPBs[j]] : mi \in {MaxIn(in.files)}} : TRUE]
     [] in.kind = "snapshot" ->
          [content |-> [k \in 1..NKeys |-> Arr(SnapContent(in.writes, k))], ppbs |-> PPBs, limit |-> PPBs]
 
 Init == c = [op |-> "root"] /\ exp = <<>>
 DoGenInput == c.op = "root" /\ GenInput(c') /\ exp' = <<>>
+DoLoadPick ==     \* an explicit input becomes an input only if it has the shape the enumerations produce
+  /\ c.op = "pick"
+  /\ LET p == PickAt(c.n) IN
+     IF c.kind = "snapshot"
+     THEN (IF ValidWrites(p) THEN c' = [op |-> "in", kind |-> c.kind, writes |-> p] ELSE FALSE)
+     ELSE (IF ValidFiles(p) THEN c' = [op |-> "in", kind |-> c.kind, files |-> p] ELSE FALSE)
+  /\ exp' = <<>>
 DoExpect == c.op = "in" /\ c' = [c EXCEPT !.op = "case"] /\ exp' = Expected(c)
-Next == DoGenInput \/ DoExpect
+Next == DoGenInput \/ DoLoadPick \/ DoExpect
 Spec == Init /\ [][Next]_vars
 
 \* ------------------------------------------------------------------ TLC: implementation layer = contract layer
@@ -305,17 +318,14 @@ ReadLemmas ==
     /\ exp.asc[1] = Reverse(exp.desc[NSeeks])
 CompactLemmas ==   \* the contract is satisfiable: cutting the expected content into ppb-sized blocks is well formed
   (IsCase /\ Family = "compact") =>
-    \A j \in 1..Len(PPBs) :
-      LET out == RefCompact(exp.content, PPBs[j]) IN
-      /\ WellFormed(out, PPBs[j]) /\ WellFormed(out, exp.limit[j])
-      /\ \A k \in 1..NKeys : ContentOf(out, k) = exp.content[k]
+    /\ \A j \in 1..Len(PPBs) : WellFormed(RefCompact(exp.content, PPBs[j]), PPBs[j]) /\ exp.limit[j] >= PPBs[j]
+    /\ \A out \in {RefCompact(exp.content, PPBs[1])} : \A k \in 1..NKeys : ContentOf(out, k) = exp.content[k]
 SnapshotLemmas ==
   (IsCase /\ Family = "snapshot") =>
     \A k \in 1..NKeys : /\ DedupI(KeyWrites(c.writes, k)) = exp.content[k]          \* Cache dedup = Values.Deduplicate
                         /\ IsSortedDedup(exp.content[k])
 
 \* constants that configuration files cannot spell
-NoPicks == <<>>
+NoPick(n) == <<>>
 PPBSmall == <<1, 2, 3, 1000>>
-PPBOne == <<1>>
 =============================================================================
